@@ -442,21 +442,25 @@ func sqlChecks(t *node, text string, withRows bool) {
 // H_SQLLeaf: one leaf of every form, all constants and the row value symbolic.
 func H_SQLLeaf() {
 	concreteFields, nextField = rtParam("CONCRETE") == 1, 0
-	signedInts = true
+	signedInts, oneDigitInts = true, false
 	form := sqlLeafForms[rtParam("FORM")]
 	t := genLeaf([]int{form})
 	rtTag("form=" + leafNames[form])
 	text := printNode(t, 0, &printOpts{})
 	rtObserve("text", text)
-	sqlChecks(t, text, true)
+	sqlChecks(t, text, rtParam("NOROWS") == 0)
 }
 
 // H_SQLTree: boolean structure over the filterable fragment.
 func H_SQLTree() {
 	concreteFields, nextField = true, 0
 	signedInts = rtParam("SIGNED") == 1
+	oneDigitInts = rtParam("ONEDIGIT") == 1
 	var forms []int
-	if rtParam("LEAVES") == 0 {
+	if rtParam("LEAVES") == 3 {
+		// parameter order in nestings: ranges, lists and strings next to each other
+		forms = []int{lfRangeIncl, lfListInt, lfEqStr}
+	} else if rtParam("LEAVES") == 0 {
 		forms = []int{lfEqInt}
 	} else if rtParam("LEAVES") == 2 {
 		forms = []int{lfEqInt, lfGt}
@@ -466,7 +470,7 @@ func H_SQLTree() {
 	t := genTree(rtParam("D"), sqlTreeOps, forms)
 	text := printNode(t, 0, &printOpts{})
 	rtObserve("text", text)
-	sqlChecks(t, text, true)
+	sqlChecks(t, text, rtParam("NOROWS") == 0)
 }
 
 func init() { register("ParamIndependent", H_ParamIndependent) }
@@ -490,6 +494,7 @@ func freshCopy(n *node) *node {
 // the values: two instances of the same query shape with independent values give the same text.
 func H_ParamIndependent() {
 	concreteFields, nextField = false, 0
+	signedInts, oneDigitInts = false, false
 	var t *node
 	if rtParam("D") == 0 {
 		t = genLeaf([]int{sqlLeafForms[rtParam("FORM")]})
